@@ -10,7 +10,8 @@ from .xtypes import INT_LIMITS, is_bool_attr, resolve
 
 P1, P2, P3, P4 = 253, 253**2, 253**3, 253**4
 INT_DOM = {"byte": (0, 254, 255), "char": (0, 1, 252), "short": (0, 253, P2 - 1), "three": (0, P2, P3 - 1), "int": (0, P3, P4 - 1)}
-STR_DOM = ("", "a", "ab~", "€Ā", "ÿy")
+# "é\x85": every character is below U+0100 but U+0085 is not a windows-1252 character (its image is '?')
+STR_DOM = ("", "a", "ab~", "é\x85", "€Ā", "ÿy")
 BLOB_DOM = (b"", b"\x00\xff", b"ab")
 
 
